@@ -337,6 +337,29 @@ class ObjOps(ToolOps):
             unit, self_value = gen_unit
             bound = self._bind_call(unit, node, env, self.ev, self_value)
             return self._new_gen(env, unit, bound) if bound is not None else UNKNOWN
+        # a synchronous method of a model object / a static factory, called where no CFG node of its own exists
+        # (inside a generator expression): evaluated right here
+        if isinstance(node.func, ast.Attribute) and not any(isinstance(a, ast.Starred) for a in node.args):
+            target = self.callee_unit(node, env)
+            unit, self_value = (target if isinstance(target, tuple) else (target, None))
+            if unit is not None and unit.kind == "sync" and getattr(self, "_depth", 0) < 3:
+                bound = self._bind_call(unit, node, env, self.ev, self_value)
+                if bound is not None:
+                    sub = {k: v for k, v in env.items() if k.startswith("@") and k not in ("@return", "@callvals", "@exc")}
+                    sub.update(bound)
+                    self._depth = getattr(self, "_depth", 0) + 1
+                    try:
+                        outs = Machine(cfg_of(unit), self, max_steps=2000, resolver=self.resolver).run(sub)
+                    except AnalysisError:
+                        outs = []
+                    finally:
+                        self._depth -= 1
+                    if len(outs) == 1 and outs[0].terminal.kind == "exit":
+                        for k, v in outs[0].env.items():
+                            if k.startswith("@") and k not in ("@return", "@callvals", "@handling", "@exc"):
+                                env[k] = v
+                        return outs[0].returned
+                    return UNKNOWN
         if last in ("getattr", "hasattr") and len(args) >= 2 and self._is_obj(args[0]) and isinstance(args[1], str):
             clsfq, fields = env["@heap"][args[0][1]]
             f = self._field_name(clsfq, args[1])
